@@ -16,6 +16,7 @@ package c16
 import (
 	"encoding/json"
 	"fmt"
+	"runtime"
 	"strings"
 	"testing"
 	"time"
@@ -42,7 +43,13 @@ type Case struct {
 	Steps []Step `json:"steps"`
 }
 
-func TestMain(m *testing.M) { hx.Main(m, "C16", rule) }
+func TestMain(m *testing.M) {
+	// The check reads goroutine dumps (stop-the-world) several times per case;
+	// with one P that is cheap, and thread interleavings become (nearly)
+	// deterministic. C16 is not about data races.
+	runtime.GOMAXPROCS(1)
+	hx.Main(m, "C16", rule)
+}
 
 // ---------------------------------------------------------------------------
 // Setup states
